@@ -74,18 +74,48 @@ def run(ck):
     ]
     special.append(["module Lonely\n"])
     special.append(["[x::attr] module Lonely::Nested\n", "module Other\nstruct S { a: int32 }\n"])
-    texts = [slicegen.render(p) for p in progs] + special
+    # comments of every shape between the definitions (banners ending in a run of asterisks among them): nothing around a definition makes it disappear
+    BANNERS = ["/** Shapes **/", "/* x */", "/***/", "/****/", "/* a * b ** c */", "// line", "/** two\n * lines\n **/", "/*\n*/", "/**/", "/* **/ /* */", "/// not a doc comment for nothing\n// x"]
+
+    def render_with_banners(prog):
+        out = []
+        for f in prog["files"]:
+            plain = slicegen.render_file(f)
+            if rng.random() < 0.5 or not f["defs"]:
+                out.append(plain)
+                continue
+            ls = []
+            for d, args in f.get("fattrs", []):
+                ls.append("[[%s%s]]" % (d, ("(" + ", ".join(slicegen.esc_arg(a) for a in args) + ")") if args else ""))
+            ls.append(slicegen.r_attrs(f.get("mattrs", [])) + "module " + f["module"])
+            for d in f["defs"]:
+                if rng.random() < 0.6:
+                    b = rng.choice(BANNERS[:-1])
+                    ls.append(b)
+                ls.append(slicegen.r_def(d))
+            if rng.random() < 0.5:
+                ls.append(rng.choice(BANNERS[:-1]))
+            out.append("\n".join(ls) + "\n")
+        return out
+    texts = [render_with_banners(p) for p in progs] + special
+    declared = [[{"%s:%s" % ({"struct": "struct", "enum": "enum", "interface": "interface", "custom": "custom", "alias": "alias"}[d["kind"]], d["scoped"]) for d in f["defs"]} for f in p["files"]] for p in progs]
     for i, ts in enumerate(texts):      # files that declare a module and nothing else
         if rng.random() < 0.15:
             ts.insert(rng.randrange(len(ts) + 1), rng.choice(["module Only%d\n", "[x::a] module Only%d\n", "[[x::f]]\nmodule Only%d::Inner\n"]) % i)
     o = core.run_impl("visit", ["visit - " + " ".join(hx(t) for t in ts) for ts in texts], chunk=200, timeout=120)
     mlines, meta = [], []
-    for ts, oo in zip(texts, o):
+    for ti, (ts, oo) in enumerate(zip(texts, o)):
         if oo.startswith(("crash", "panic", "skipped")) or " || " not in oo:
             ck.count("traversal", "\n--\n".join(ts))
             ck.violation("traversal", "crash", "\n--\n".join(ts), "a traversal", oo[:200])
             continue
         body = oo.split(" || ", 1)[0]
+        if ti < len(declared) and " || none" in oo:
+            # what the program declares, read from the program itself (not from the compiled file): every definition is presented while walking its file
+            allev = set(x for part in body.split(" ;; ") if " => " in part for x in part.split(" => ", 1)[1].split(" @@ ")[0].split(" "))
+            missing = sorted(w for ws in declared[ti] for w in ws if w not in allev)
+            if missing:
+                ck.violation("traversal", "declared-definition-not-presented", "\n--\n".join(ts), "every definition the files declare", "never presented: %s" % missing[:5], signature={"kind": missing[0].split(":")[0]})
         for part in body.split(" ;; "):
             sx, ev = part.split(" => ", 1) if " => " in part else (part, "")
             ev, _, located = ev.partition(" @@ ")
@@ -110,7 +140,7 @@ def run(ck):
                 prev = (kind, here)
     m = core.run_model("visit", mlines, chunk=2000)
     ck.stream("traversal", description="recording Visitor on every file of generated programs (all definition kinds, anonymous types nested to depth 3, aliases of anonymous types used across files, unresolvable references); "
-              "the model walks the AST as the public accessors present it; observable: the full event list (entity by scoped id, type reference by file:span); and where every presented entity is written: in the file walked, each after the one before it")
+              "the model walks the AST as the public accessors present it; comments of every shape between the definitions; every definition the program declares (read from the program, not from the compiled file) is presented; observable: the full event list (entity by scoped id, type reference by file:span); and where every presented entity is written: in the file walked, each after the one before it")
     for ml, mo, (ts, ids, ev, fsx) in zip(mlines, m, meta):
         ck.count("traversal", ml, kind="file")
         if mo.startswith("SPECMISMATCH"):
